@@ -129,8 +129,11 @@ impl Env {
         let root = ws.root();
         // the sentinel directory outside the workspace
         let outside = ws.tw.env.root().join("outside");
+        // pre-populated with the same sub-paths as the workspace's directory d:
+        // x/ and x/z = "precious" (content 1)
         std::fs::create_dir(&outside).unwrap();
-        std::fs::write(outside.join("x"), b"c1\n").unwrap();
+        std::fs::create_dir(outside.join("x")).unwrap();
+        std::fs::write(outside.join("x").join("z"), b"c1\n").unwrap();
         Self { ws, root, outside }
     }
 
@@ -143,11 +146,23 @@ impl Env {
     }
 
     fn target_to_disk(&self, t: &str) -> PathBuf {
-        if t == "out" { self.outside.clone() } else { PathBuf::from(t) }
+        if t == "out" {
+            self.outside.clone()
+        } else if t == "out/x" {
+            self.outside.join("x")
+        } else {
+            PathBuf::from(t)
+        }
     }
 
     fn target_from_disk(&self, t: &Path) -> String {
-        if t == self.outside { "out".to_string() } else { t.to_string_lossy().into_owned() }
+        if t == self.outside {
+            "out".to_string()
+        } else if t == self.outside.join("x") {
+            "out/x".to_string()
+        } else {
+            t.to_string_lossy().into_owned()
+        }
     }
 
     /// value of a file-system entry in the model vocabulary
@@ -192,9 +207,29 @@ impl Env {
             .collect()
     }
 
+    /// the sentinel directory: value of every universe path below d, relative to the
+    /// sentinel (gi, x, x/z, y), in PATHS order
     fn project_outside(&self) -> Value {
-        json!({"x": self.project_entry(&["x"], &self.outside.join("x")),
-               "y": self.project_entry(&["y"], &self.outside.join("y"))})
+        let vals: Vec<Value> = PATHS
+            .iter()
+            .filter(|p| p.len() > 1)
+            .map(|p| {
+                let rel = &p[1..];
+                let mut q = self.outside.clone();
+                for c in rel {
+                    q.push(real_comp(c));
+                }
+                let parents_ok = (1..rel.len()).all(|n| {
+                    let mut a = self.outside.clone();
+                    for c in &rel[..n] {
+                        a.push(real_comp(c));
+                    }
+                    std::fs::symlink_metadata(a).is_ok_and(|m| m.is_dir())
+                });
+                if parents_ok { self.project_entry(p, &q) } else { absent() }
+            })
+            .collect();
+        json!(vals)
     }
 
     /// names on disk that are not in the universe (none expected)
@@ -218,14 +253,11 @@ impl Env {
         }
         let mut out = vec![];
         walk(&self.root, &mut vec![], &mut out);
-        if let Ok(rd) = std::fs::read_dir(&self.outside) {
-            for e in rd.flatten() {
-                let n = e.file_name().to_string_lossy().into_owned();
-                if !["x", "y"].contains(&n.as_str()) {
-                    out.push(format!("outside/{n}"));
-                }
-            }
-        }
+        // the sentinel mirrors the paths below d
+        let mut rel = vec!["d".to_string()];
+        let mut o2 = vec![];
+        walk(&self.outside, &mut rel, &mut o2);
+        out.extend(o2.into_iter().map(|e| format!("outside:{e}")));
         out.sort();
         out
     }
@@ -407,6 +439,12 @@ fn exec_step(env: &mut Env, st: &Value) -> Result<Value, String> {
         }
         "RmTree" => {
             std::fs::remove_dir_all(&path).map_err(io)?;
+            Ok(no_stats)
+        }
+        "DirToSymlink" => {
+            std::fs::remove_dir_all(&path).map_err(io)?;
+            std::os::unix::fs::symlink(env.target_to_disk(st["t"].as_str().ok_or("DirToSymlink without t")?), &path)
+                .map_err(io)?;
             Ok(no_stats)
         }
         "DirToFile" => {
@@ -663,6 +701,37 @@ fn random_script(rng: &mut Rng, len: usize, focus: &str) -> Value {
         }
         steps.push(json!({"a":"Snapshot"}));
     }
+    if focus == "checkout" && rng.chance(1, 3) {
+        // a directory at some depth replaced by a symlink to the outside sentinel (which has
+        // the same sub-paths), then check-outs that modify / remove / add paths below it
+        let mut t: Vec<Value> = PATHS.iter().map(|_| absent()).collect();
+        t[idx(&["d", "x", "z"])] = val("file", rng.range(1, 2) as i64, rng.chance(1, 3), "", vec![]);
+        if rng.chance(1, 2) {
+            t[idx(&["d", "y"])] = val("file", 1, false, "", vec![]);
+        }
+        steps.push(json!({"a":"CheckOut","tree":t.clone()}));
+        if rng.chance(1, 4) {
+            steps.push(json!({"a":"Snapshot"}));
+        }
+        if rng.chance(2, 3) {
+            steps.push(json!({"a":"DirToSymlink","p":["d"],"t":"out"}));
+        } else {
+            steps.push(json!({"a":"DirToSymlink","p":["d","x"],"t":"out/x"}));
+        }
+        for _ in 0..rng.range(1, 2) {
+            match rng.below(4) {
+                0 | 1 => {
+                    // modify d/x/z in place (content or exec bit)
+                    let old = t[idx(&["d", "x", "z"])].clone();
+                    let c = 3 - old["c"].as_i64().unwrap_or(1).clamp(1, 2);
+                    t[idx(&["d", "x", "z"])] = val("file", c, rng.chance(1, 3), "", vec![]);
+                }
+                2 => t[idx(&["d", "x", "z"])] = absent(),
+                _ => t[idx(&["d", "y"])] = val("file", 2, false, "", vec![]),
+            }
+            steps.push(json!({"a":"CheckOut","tree":t.clone()}));
+        }
+    }
     let mut tries = 0;
     while steps.len() < len && tries < 1000 {
         tries += 1;
@@ -697,9 +766,10 @@ fn random_script(rng: &mut Rng, len: usize, focus: &str) -> Value {
         let e = match rng.below(14) {
             0..=4 => json!({"a":"Write","p":p,"c":c}),
             5 => json!({"a":"Chmod","p":p}),
-            6 => json!({"a":"Symlink","p":p,"t": if rng.chance(1, 2) { "f" } else { "out" }}),
+            6 => json!({"a":"Symlink","p":p,"t": *rng.pick(&["f", "out", "out", "out/x"])}),
             7 | 8 => json!({"a":"Delete","p":p}),
-            9 | 10 => json!({"a":"FileToDir","p":dp}),
+            9 => json!({"a":"FileToDir","p":dp}),
+            10 => json!({"a":"DirToSymlink","p":dp,"t": *rng.pick(&["out", "out/x"])}),
             11 => json!({"a":"DirToFile","p":dp,"c":cd}),
             12 => json!({"a":"Mkfifo","p":p}),
             _ => json!({"a":"RmTree","p":dp}),
@@ -742,6 +812,7 @@ fn edit_applicable(env: &Env, st: &Value) -> bool {
         "Mkfifo" => matches!(k, K::Absent | K::File | K::Symlink) && !is_ignore_path(&p),
         "FileToDir" => k != K::Dir && !is_ignore_path(&p),
         "RmTree" | "DirToFile" => k == K::Dir,
+        "DirToSymlink" => k == K::Dir && !is_ignore_path(&p),
         _ => true,
     }
 }
